@@ -146,6 +146,7 @@ type sched struct {
 	r     *recorder
 	inner core.Schedule
 	past  int
+	late  time.Duration // how far in the past every past-th token lies
 	drawn int
 }
 
@@ -160,7 +161,7 @@ func (s *sched) Next() (time.Time, bool) {
 		s.r.logf("n%d", s.r.lid(t))
 		s.drawn++
 		if s.past > 0 && s.drawn%s.past == 0 {
-			tx = tx.Add(-3 * time.Second) // 3 s overdue: discarded when discard_overflow is on
+			tx = tx.Add(-s.late) // overdue by more than MaxOverdueDuration: discarded when discard_overflow is on
 		}
 	} else {
 		s.r.logf("x%d", s.r.lid(t))
